@@ -75,7 +75,71 @@ def rule_defn(P) -> RuleResult:
                      f'(p0, p1, ... = its arguments); the implementation returns `{show(bad.value)[:100]}`{cond}', loc(fi))
     if len(seen) < 15:
         raise AnalysisError(f'only {len(seen)} definitional functions found')
+    _reference_cases(P, res, reg)
     return res
+
+
+# functions with control flow: compared with a reference implementation through what they compute with - the outside functions they
+# apply and to what (all paths together) - and, where the reference says so, the set of values they can return.  Loop shape, helper
+# extraction and the spelling of the tests do not matter.
+REFERENCES = {
+    'findfirst': ('def _reference(p0, p1):\n    if not p1:\n        return None\n    for v in sorted(p1):\n        if re.match(p0, v):\n'
+                  '            return v\n    return None\n', False,
+                  'the first value, in sorted order, that the pattern matches at its start (re.match), else NULL'),
+    'grep': ('def _reference(p0, p1):\n    m = re.search(p0, p1)\n    if m:\n        return m.group(0)\n    return None\n', True,
+             'the portion of the string matched by re.search(pattern, string), else NULL'),
+    'grepn': ('def _reference(p0, p1, p2):\n    m = re.search(p0, p1)\n    if m:\n        return m.group(p2)\n    return None\n', True,
+              'subgroup n of re.search(pattern, string), else NULL'),
+}
+
+
+_PLUMBING = ('next', 'iter', 'list', 'tuple', 'any', 'all', 'bool', 'len', 'isinstance', 'filter', 'map')     # how values are walked, not what is computed
+
+
+def _uses(P, fn, env, module):
+    from ..symex import walk_terms
+    calls, values = set(), set()
+    for p in Engine(P).paths(fn, env):
+        terms = [T('call', (e[1], e[2], e[3])) for e in p.events if e[0] == 'call'] + [t for t, _ in p.decisions]
+        for t in terms:
+            for x in walk_terms(t):
+                if isinstance(x, T) and x.op == 'call' and x.args[0] not in _PLUMBING:
+                    calls.add(repr(_resolve_names(canon(x), module)))
+        if p.outcome == 'return':
+            values.add(repr(_resolve_names(canon(p.value), module)))
+    return calls, values
+
+
+def _reference_cases(P, res, reg):
+    seen = set()
+    for f in reg.funcs:
+        if f.kind != 'function' or f.impl is None or f.name not in REFERENCES or (f.name, f.impl.fq) in seen:
+            continue
+        seen.add((f.name, f.impl.fq))
+        fi = f.impl
+        src, with_values, words = REFERENCES[f.name]
+        off = 1 if (f.pass_context or f.pass_row) else 0
+        params = fi.params[off:]
+        env = {p: Sym(f'p{i}') for i, p in enumerate(params)}
+        for p in fi.params[:off]:
+            env[p] = Sym('CONTEXT')
+        dnode = ast.parse(src).body[0]
+        denv = {f'p{i}': Sym(f'p{i}') for i in range(len(params))}
+        denv['__fi__'] = fi
+        want_calls, want_values = _uses(P, dnode, denv, fi.module)
+        got_calls, got_values = _uses(P, fi, env, fi.module)
+        construct = f'function:{f.name}'
+        if got_calls != want_calls:
+            diff = sorted(got_calls ^ want_calls)
+            res.fail(construct, 'defn:changed', f'{f.name}({", ".join(params)}) is {words}; the implementation computes with '
+                     f'{sorted(got_calls)}, the definition with {sorted(want_calls)} (difference: {diff[:2]})'[:600], loc(fi))
+        elif with_values and got_values != want_values:
+            res.fail(construct, 'defn:changed', f'{f.name}({", ".join(params)}) is {words}; the implementation can return '
+                     f'{sorted(got_values)}, the definition {sorted(want_values)}'[:600], loc(fi))
+        else:
+            res.ok({'function': f.name, 'definition': words, 'computes_with': sorted(want_calls)})
+    if len(seen) < len(REFERENCES):
+        raise AnalysisError(f'only {len(seen)} of the {len(REFERENCES)} functions with a reference implementation found')
 
 
 # ----------------------------------------------------------------------
@@ -185,14 +249,34 @@ def rule_castdef(P) -> RuleResult:
             res.ok({'function': 'date(y, m, d)', 'value': 'datetime.date(y, m, d)'})
         else:
             res.fail('function:date(int, int, int)', 'castdef:date3', f'date(y, m, d) must be datetime.date(y, m, d); returns {vals}'[:300], loc(fi))
+    _account_types_cases(P, res, ('possign', 'account_sortkey'))
+    return res
+
+
+def _account_types_cases(P, res, names):
+    reg = registry.get(P)
+    X = Sym('X')
+
+    def impls(name, nargs):
+        out = {}
+        for f in reg.funcs:
+            if f.name == name and f.kind == 'function' and f.impl is not None and len(f.intypes) == nargs:
+                out[f.impl.fq] = f
+        return list(out.values())
     # possign / account_sortkey: the account types of this ledger
     CTX, ACC = Sym('CONTEXT'), Sym('ACCOUNT')
     TYPES = T('attr', (T('item', (T('attr', (CTX, 'tables')), 'accounts')), 'types'))
-    for name in ('possign', 'account_sortkey'):
+    for name in names:
         fs = impls(name, 2 if name == 'possign' else 1)
         if not fs:
             raise AnalysisError(f'anchor vanished: {name}()')
         fi = fs[0].impl
+        construct = f'function:{name}'
+        if len(fi.params) < (3 if name == 'possign' else 2):
+            res.fail(construct, 'castdef:account-types', f'{name}() must classify the account with the account types of this ledger '
+                     f'(context.tables["accounts"].types): ledgers may rename the five root accounts; it does not even receive the '
+                     f'context (parameters: {fi.params})', loc(fi))
+            continue
         env = {fi.params[0]: CTX}
         if name == 'possign':
             env[fi.params[1]] = X
@@ -231,4 +315,12 @@ def rule_castdef(P) -> RuleResult:
                          f'got {[(k, show(v)) for k, v in outs.items()]}', loc(fi))
         else:
             res.ok({'function': name, 'account_types': 'of this ledger'})
+
+
+def rule_accttypes(P) -> RuleResult:
+    """BALANCES orders its rows by account_sortkey(account): account type first, in the order of the account types of *this* ledger
+    (ledgers may rename the five root accounts with the name_* options), then name."""
+    res = RuleResult('R-ACCTTYPES')
+    res.exhaustive = True
+    _account_types_cases(P, res, ('account_sortkey',))
     return res
